@@ -99,6 +99,8 @@ def run_tlc_design(cfg, spec, timeout_s, workers=None, simulate=None, extra=None
         m = re.match(r"^Error: Action property (\w+) is violated", line)
         if m:
             res["violated"] = m.group(1)
+        if re.match(r"^Error: Action property line \d+", line):
+            res["violated"] = "action-property(" + line.split(" of module ")[-1].split(" ")[0] + ")"
         if "Temporal properties were violated" in line:
             res["violated"] = "temporal"
     if rc not in (0, 124) and res["violated"] is None and "Error:" in out:
